@@ -52,7 +52,8 @@ def record_pass(loader, orig, n, b, shuffle, has_extra, note):
     batches = []
     for batch in loader:
         tags = batch["tag"].tolist()
-        ex = batch["extra"].tolist() if has_extra else [0] * len(tags)
+        # (a batch that lacks the promised extra key is recorded with the impossible value -1: M_Extra then fails)
+        ex = (batch["extra"].tolist() if "extra" in batch.keys() else [-1] * len(tags)) if has_extra else [0] * len(tags)
         batches.append([[int(t), int(round(float(x))), bool(item_ok(batch, j, orig, int(t)))]
                         for j, (t, x) in enumerate(zip(tags, ex))])
     return {"n": n, "b": b, "shuffle": bool(shuffle), "has_extra": bool(has_extra), "batches": batches, "note": note}
@@ -159,13 +160,14 @@ def run(tier, seed):
             for idxs, batch in zip(orders, got):
                 tags = [int(t) for t in batch["tag"].tolist()]
                 ok = tags == [i + 1 for i in idxs] and all(item_ok(batch, j, orig, t) for j, t in enumerate(tags)) and \
-                    (not has_extra or [int(round(float(x))) for x in batch["extra"].tolist()] == [F(t) for t in tags])
+                    (not has_extra or ("extra" in batch.keys()
+                                       and [int(round(float(x))) for x in batch["extra"].tolist()] == [F(t) for t in tags]))
                 if not ok:
                     viol.append({"property": "C17", "env": cname + (".add_key" if has_extra else ""), "monitor": "requested-items-in-requested-order",
                                  "inst": {"n": n, "indices": idxs}, "actions": [],
                                  "detail": "batch sampler asked for items %s (tags %s), batch holds tags %s%s"
                                            % (idxs, [i + 1 for i in idxs], tags,
-                                              " extra %s" % batch["extra"].tolist() if has_extra else "")})
+                                              " extra %s" % (batch["extra"].tolist() if "extra" in batch.keys() else "MISSING") if has_extra else "")})
     fails, _, st, _ = validate_records("LoaderTrace", recs, ["M_Size", "M_Order", "M_Same", "M_Extra", "M_Perm", "End"], "c17")
     for f in fails:
         rec = recs[f[0]]
